@@ -90,7 +90,18 @@ func NewEnv(w string) (*Env, error) {
 	}
 	e.PluginBin = filepath.Join(w, "bin", "protoc-gen-terraform")
 	e.GogoBin = filepath.Join(w, "bin", "protoc-gen-gogo")
-	_, se, ex, err := run(RepoDir, e.GoEnv, nil, "go", "build", "-tags", e.BuildTags, "-o", e.PluginBin, ".")
+	// development aid: VERIF_COVER=<dir> builds the plugin with coverage instrumentation; every run of it then writes its
+	// counters to <dir> (GOCOVERDIR), so that the statements of the generator no shape reaches can be listed
+	// (go tool covdata textfmt -i=<dir> -o=profile ; go tool cover -func=profile)
+	buildArgs := []string{"build", "-tags", e.BuildTags, "-o", e.PluginBin, "."}
+	if cd := os.Getenv("VERIF_COVER"); cd != "" {
+		buildArgs = []string{"build", "-cover", "-tags", e.BuildTags, "-o", e.PluginBin, "."}
+		if err := os.MkdirAll(cd, 0o755); err != nil {
+			return nil, err
+		}
+		e.GoEnv = append(e.GoEnv, "GOCOVERDIR="+cd)
+	}
+	_, se, ex, err := run(RepoDir, e.GoEnv, nil, "go", buildArgs...)
 	if err != nil || ex != 0 {
 		return nil, fmt.Errorf("building the plugin from %s failed: %v\n%s", RepoDir, err, se)
 	}
@@ -191,6 +202,9 @@ type GenResult struct {
 func structDir(v Variant) string {
 	if v.C.DottedImport {
 		return v.D.Pkg + ".v1"
+	}
+	if v.C.CapsImport {
+		return "RootLeafMidOuterInnerTypes"
 	}
 	return v.D.Pkg
 }
@@ -347,10 +361,25 @@ func (e *Env) Generate(v Variant) (*GenResult, error) {
 			}
 		}
 		ap := filepath.Join(vdir, fmt.Sprintf("config-alt%d.yaml", ai))
+		if alt.CfgFile != "" {
+			if strings.TrimSpace(strings.TrimPrefix(ayaml, "---")) != "" {
+				return nil, fmt.Errorf("alternative %s of %s: cfgfile=%s needs a configuration that fits on the command line, the YAML part is\n%s", alt.Name, v.Key, alt.CfgFile, ayaml)
+			}
+			switch alt.CfgFile {
+			case "empty":
+				ayaml = ""
+			case "comments":
+				ayaml = "# configuration of the generator\n#types:\n#  - \"Root\"\n\n# sort: true\n"
+			}
+		}
 		if err := ioutil.WriteFile(ap, []byte(ayaml), 0o644); err != nil {
 			return nil, err
 		}
-		areq.Parameter = proto.String(strings.Join(append([]string{"config=" + ap}, acli...), ","))
+		if alt.CfgFile == "none" {
+			areq.Parameter = proto.String(strings.Join(acli, ","))
+		} else {
+			areq.Parameter = proto.String(strings.Join(append([]string{"config=" + ap}, acli...), ","))
+		}
 		ab, err := proto.Marshal(areq)
 		if err != nil {
 			return nil, err
